@@ -35,6 +35,13 @@ def run(env, tier, seed, broken=None):
     for pre in [PRINT + ' a + ', 'x = ', FUN + ' f(', IF + ' (', '{ ', 'a[', 'o.', 'f(1, ']:
         for tail in ['1.', '1', '"s', '/*', 'a.', '1.5', '', '(', '{', '[', '-', '!']:
             texts.append(pre + tail)
+    for np in (254, 255, 256, 257, 300):
+        ps = ['p%d' % i for i in range(1, np + 1)]
+        texts.append('%s f(%s) { %s p1; }' % (FUN, ', '.join(ps), RETURN))
+        texts.append('%s f(%s\n) { %s p1; }' % (FUN, ', '.join(ps), RETURN))
+        texts.append('%s f(%s\n, extra) { }' % (FUN, ',\n'.join(ps)))
+    for sp in ['\x00', '\u00a0', '\u2028', '\x0b']:
+        texts += ['%s 1; // c %s (\n%s 2;' % (PRINT, sp, PRINT), '%s 1; /* c %s ( */ %s 2;' % (PRINT, sp, PRINT), '%s "a%sb";' % (PRINT, sp), 'x =%s1;' % sp, 'x = %s1;' % sp, 'x = 1 %s;' % sp]
     # token sequences: depth-first, all of length <= 3 (4 in thorough), random of length 4..14
     for n in (3,) if tier == 'quick' else (3, 4):
         for t in itertools.product(TOKS, repeat=n):
